@@ -167,16 +167,21 @@ CLAIMED = {
         technique="Coq proof (induction over op lists, sortedness invariant) + text-equality correspondence + extracted-parser site oracle + extracted-AVM differential run",
         design_ref="DESIGN.md §4 C12, design_notes/C12.md"),
     "C02": dict(
-        text="PARTIAL. The compile model of subroutines (SubroutineEval prologues for both calling conventions, spillLocalSlotsDuringRecursion, resolveSubroutines, flattenSubroutines) is tied to the real "
-             "compiler by exact text equality, and every successful real output is executed on the extracted AVM against a call-aware source semantics (arguments left to right, parameters bound to values / "
-             "slot numbers, activation-local variables, Return anywhere, Approve/Reject inside routines) on seeded random call graphs with self and mutual recursion, arity 0..4, by-value/by-reference "
-             "parameters, return none/uint64/bytes, versions 4..10 x frame_pointers x scratch_slots. Machine-checked theorems about the spill/restore stack shuffling and the two prologues are in Props/C02.v "
-             "(being extended; see evidence for the list discharged in this run). One defect found this way was repaired in /repo (spill code used the caller's return type: a recursive ABI factorial of 5 "
-             "returned 20 under the scratch convention); two open known findings (control transfer inside an operand; optimiser orphan store).",
-        note="Trusted: Coq kernel; AVM semantics incl. the inferred retsub-under-proto rule; Src/DenoteCall.v as the meaning of a call; Comp/Compile.v hand model tied by text equality each run; harness/build.py "
-             "(reads argument slots back from the evaluated declaration); extraction + driver. ABI-typed parameters/outputs are exercised by C06/C07/C09, not here. End-to-end call correctness is not one composed theorem.",
-        technique="Coq theorems on spill/prologue op sequences + compile-model text equality + extracted-AVM vs call-aware denotation differential run",
-        design_ref="DESIGN.md §4 C02"),
+        text="Proof (Coq, closed under the global context, 35 property theorems over 685 obligations), partial at the top level. Pieces, for all inputs: the spill/restore code around a re-entrant call has "
+             "the frame property (C02_spill_frame_same_type, C02_wrapped_call_protects: results delivered, every local slot restored, nothing else touched); the scratch prologue binds parameter i to "
+             "argument i; callsub/proto/frame_dig/frame_bury/retsub steps on the reference machine. Composition (Props/C02_compose.v): the LINKED code - main followed by the subroutines, callsub/retsub with a "
+             "call stack - computes the call-aware source semantics for ANY call graph (C02_link_star, C02_linked_calls_realized; the C01 chain re-checked against a call oracle in coq/CallX), program-level "
+             "C02_call_correct_nonrecursive_partial and C02_call_correct_recursive_partial (with the emitted spill code), and against Src/DenoteCall.v for by-value parameters, scratch convention, "
+             "non-failing runs (C02_by_value_sim, C02_call_correct_nonrecursive_by_value_partial). Open: frame-pointer convention end to end, by-reference parameters and failing runs against denote_c, "
+             "deriving label uniqueness from the pipeline. Tie: exact text equality model vs compileTeal on directed call shapes and seeded random call graphs (self/mutual recursion, by-reference, "
+             "none/uint64/bytes results, versions 4..10 x frame_pointers x scratch_slots), every real output executed on the extracted AVM against the call-aware semantics, plus free-form real programs "
+             "(ABI-returning routines with by-reference parameters, DynamicScratchVar ...) checked against their own expected verdict. Two open known findings (control transfer inside an operand; optimiser "
+             "orphan store); one defect repaired in /repo (258948a).",
+        note="Trusted: Coq kernel; AVM semantics incl. the retsub-under-proto rule (validated on node goldens); Src/DenoteCall.v as the meaning of a call; Comp/Compile.v hand model tied by text equality; "
+             "harness/build.py (reads argument slots back from the evaluated declaration); extraction + driver. The composed theorems assume the optimiser off (excludes the orphan-store finding) and "
+             "`disciplined` routines (excludes ctrl-in-operand) where they speak about denote_c. ABI-typed parameters/outputs are exercised by C06/C07/C09 and harness/c03_free.py, not by the theorems.",
+        technique="Coq: op-sequence theorems, oracle-parametrised re-check of the C01 chain, linked-code simulation with a call stack, fuel-indexed simulation against the call-aware semantics + compile-model text equality + extracted-AVM differential run",
+        design_ref="DESIGN.md §4 C02, design_notes/C02_proofs.md, design_notes/C02_compose.md"),
     "C10": dict(
         text="Proof (Coq, closed under the global context) about an executable model of collectScratchSlots / assignScratchSlotsToSubroutines / assignSlot / the ScratchSlot constructor / alloc_abstract_var, for every "
              "program and every iteration order of Python's slot set: the assignment is injective on slot objects, total on referenced slots, keeps requested ids and stays below NUM_SLOTS (<= 256, regenerated each run); "
